@@ -1872,7 +1872,13 @@ fn main() {
             "release": {"outcome": r.class, "fields": r.fields.iter().take(60).collect::<Vec<_>>(), "message": r.msg},
             "representable": representable});
         *outcomes.entry(format!("{}:{}{}", c.kind, if representable { "fits:" } else { "unfit:" }, if d.class == r.class { d.class.clone() } else { format!("{}|{}", d.class, r.class) })).or_default() += 1;
-        let agree = d.class == r.class && d.fields == r.fields;
+        // whole-font cases: "error" and "panic" are both a failed build (which job fails first can
+        // depend on the schedule); the direct call distinguishes Err from a panic
+        let agree = if c.kind == "widthclass" {
+            d.class == r.class && d.fields == r.fields
+        } else {
+            (d.class == "font") == (r.class == "font") && d.fields == r.fields
+        };
         if d.class == "font" && r.class == "font" {
             if d.sha == r.sha { bytes_equal += 1 } else { bytes_differ += 1 }
         }
